@@ -175,9 +175,10 @@ def icosahedron(center : Vec = Vec(0,0,0), radius: float=1., uv=False):
         _type_: _description_
     """
     phi = (1 + sqrt(5)) / 2
+    norm = sqrt(1 + phi*phi) # distance to the origin of the twelve points below
     m = RawMeshData()
 
-    m.vertices += [ radius*a+center for a in 
+    m.vertices += [ radius*a/norm+center for a in 
     [
         Vec(-1, phi,0),
         Vec(1, phi, 0),
